@@ -225,6 +225,11 @@ def add_coordinates(job, g, profile, force_res=None):
             lines.append((resid, resname, "CG") + tuple(xyz))
             supplied_centres[f"{inst}:{resid}"] = xyz
     job["coord_text"] = write_gro_text("verif input", lines, gro["box"][:3])
+    if kind == "mol" and g.random() < profile.get("p_pre_call", 0.0):
+        # the complete earlier build, to be read from the same path by an earlier call in the same process
+        full = [(at["resid"], at["resname"], at["atomname"]) + tuple(at["xyz"]) for at in gro["atoms"]]
+        if len(full) != len(lines):
+            job["pre_coord_text"] = write_gro_text("verif earlier input", full, gro["box"][:3])
     job["coord_kind"] = kind
     job["coord_box"] = gro["box"][:3]
     job["coord_mode"] = mode
